@@ -17,13 +17,16 @@ import traceback
 VERIF = os.path.dirname(os.path.dirname(os.path.abspath(__file__)))
 KNOWN_FILE = os.path.join(VERIF, 'KNOWN_FINDINGS.txt')
 MAX_UNKNOWN = 6          # stop exploring after this many distinct unknown witnesses
+MAX_UNKNOWN_FAILS = 40   # ... or after this many failing cases attributed to unknown witnesses
 MIN_BUDGET = 300         # check evaluations per minimisation
 MIN_TOTAL_SECONDS = 90.0  # ... seconds of exhaustive minimisation per worker process in one run
 GREEDY_BUDGET = 1500     # evaluations of the greedy fallback descent
-GREEDY_SECONDS = 20.0
-FULL_MINIMISATIONS_PER_CLAUSE = 12
-MIN_SECONDS = 15.0       # wall time per minimisation
-CHUNK_SECONDS = 240.0    # wall time after which a worker returns a chunk unfinished
+GREEDY_SECONDS = 8.0
+FULL_MINIMISATIONS_PER_CLAUSE = 4
+MIN_SECONDS = 5.0        # wall time per minimisation
+CASE_SECONDS = 60.0      # wall time of one case in a worker (the slowest case on the clean tree takes a few seconds)
+MIN_EVAL_SECONDS = 20.0  # wall time of one evaluation during minimisation
+CHUNK_SECONDS = 45.0     # wall time after which a worker that has seen failures returns its chunk unfinished
 CHUNK_WITNESS_CAP = 8    # a worker stops a chunk once it holds this many distinct witnesses
 
 # ----------------------------------------------------------------------------- counters
@@ -70,6 +73,9 @@ def case_key(case):
     return hashlib.sha1(repr(case).encode('utf8', 'backslashreplace')).hexdigest()
 
 
+_W = {}
+
+
 class Fail:
     __slots__ = ('clause', 'detail')
 
@@ -85,9 +91,28 @@ def load_prop(pid):
     return importlib.import_module('vmc.props.%s' % pid.lower())
 
 
-def safe_check(prop, case):
-    """Run prop.check; an exception escaping the oracle itself is a machinery error."""
-    return prop.check(case)
+class CaseTimeout(Exception):
+    pass
+
+
+def _on_alarm(_signum, _frame):
+    raise CaseTimeout()
+
+
+def safe_check(prop, case, seconds=None):
+    """Run prop.check under a wall-clock limit (workers only; SIGALRM).  An exception escaping the
+    oracle itself is a machinery error; a timeout means the code under test has become pathologically
+    slow and is reported to the caller as CaseTimeout."""
+    import signal
+    if seconds is None or not _W.get('in_worker'):
+        return prop.check(case)
+    old = signal.signal(signal.SIGALRM, _on_alarm)
+    signal.setitimer(signal.ITIMER_REAL, seconds)
+    try:
+        return prop.check(case)
+    finally:
+        signal.setitimer(signal.ITIMER_REAL, 0)
+        signal.signal(signal.SIGALRM, old)
 
 
 # ----------------------------------------------------------------------------- known findings
@@ -117,8 +142,8 @@ def _clauses_of(prop, case, memo, counter):
     if k not in memo:
         counter[0] += 1
         try:
-            memo[k] = frozenset(f.clause for f in safe_check(prop, case))
-        except Exception:  # noqa: BLE001  (oracle cannot judge the reduced case)
+            memo[k] = frozenset(f.clause for f in safe_check(prop, case, MIN_EVAL_SECONDS))
+        except (Exception, CaseTimeout):  # noqa: BLE001  (oracle cannot judge the reduced case / too slow)
             memo[k] = frozenset()
     return memo[k]
 
@@ -182,15 +207,13 @@ def minimise(prop, case, clause, memo, budget=MIN_BUDGET):
 
 # ----------------------------------------------------------------------------- worker
 
-_W = {}
-
-
 def _worker_init(pid, repo):
     import logging
     logging.disable(logging.CRITICAL)
     sys.stderr = open(os.devnull, 'w')     # ANTLR console listener / XMLReader chatter
     _W['prop'] = load_prop(pid)
     _W['memo'] = {}
+    _W['in_worker'] = True
     init = getattr(_W['prop'], 'worker_init', None)
     if init:
         init()
@@ -207,7 +230,7 @@ def _run_chunk(chunk):
     t_chunk = time.time()
     try:
         for ci, case in enumerate(chunk):
-            if time.time() - t_chunk > CHUNK_SECONDS:
+            if time.time() - t_chunk > CHUNK_SECONDS and res['fails']:
                 # the code under test has become pathologically slow (e.g. state that grows with every
                 # call): hand back what was found so far instead of blocking the run
                 res['incomplete'] = len(chunk) - ci
@@ -217,7 +240,12 @@ def _run_chunk(chunk):
             res['keys'].append(k)
             if res['sample'] is None:
                 res['sample'] = case
-            fails = safe_check(prop, case)
+            try:
+                fails = safe_check(prop, case, CASE_SECONDS)
+            except CaseTimeout:
+                res['incomplete'] = len(chunk) - ci
+                res['timeouts'] = res.get('timeouts', 0) + 1
+                break
             memo[k] = frozenset(f.clause for f in fails)
             if nontrivial is None or nontrivial(case):
                 res['nontrivial'].append(k)
@@ -233,12 +261,18 @@ def _run_chunk(chunk):
                     continue
                 done.add(f.clause)
                 for w in minimise(prop, case, f.clause, memo):
-                    wf = [x for x in safe_check(prop, w) if x.clause == f.clause]
+                    try:
+                        wf = [x for x in safe_check(prop, w, MIN_EVAL_SECONDS) if x.clause == f.clause]
+                    except CaseTimeout:
+                        wf = []
                     norm = getattr(prop, 'normalize', None)
                     if norm is not None:
                         w2 = norm(w)
                         if w2 != w:
-                            wf2 = [x for x in safe_check(prop, w2) if x.clause == f.clause]
+                            try:
+                                wf2 = [x for x in safe_check(prop, w2, MIN_EVAL_SECONDS) if x.clause == f.clause]
+                            except CaseTimeout:
+                                wf2 = []
                             if wf2:
                                 w, wf = w2, wf2
                     detail = wf[0].detail if wf else f.detail
@@ -250,13 +284,17 @@ def _run_chunk(chunk):
     return res
 
 
-def _chunks(it, size):
+def _chunks(it, size, warmup=32, warmup_size=6):
+    """Chunks of `size` cases; the first `warmup` chunks are small so that the first results (and
+    with them an early stop on a badly broken tree) arrive quickly."""
     buf = []
+    n = 0
     for x in it:
         buf.append(x)
-        if len(buf) >= size:
+        if len(buf) >= (warmup_size if n < warmup else size):
             yield buf
             buf = []
+            n += 1
     if buf:
         yield buf
 
@@ -317,6 +355,11 @@ def run_property(pid, tier, seed, jobs=None, time_cap=None):
             unknown = [k for k in witnesses if (pid, k[0], k[1]) not in known]
             if len(unknown) >= MAX_UNKNOWN:
                 capped = 'stopped early after %d distinct unknown witnesses' % len(unknown)
+                break
+            n_unknown_fails = sum(1 for (cl, w, ws, _d, _o) in res['fails'] if (pid, cl, ws) not in known)
+            agg['unknown_fails'] = agg.get('unknown_fails', 0) + n_unknown_fails
+            if unknown and agg['unknown_fails'] >= MAX_UNKNOWN_FAILS:
+                capped = 'stopped early after %d failing cases with %d distinct unknown witnesses' % (agg['unknown_fails'], len(unknown))
                 break
             if time_cap and time.time() - t_start > time_cap:
                 capped = 'time cap %ss reached' % time_cap
